@@ -47,6 +47,13 @@ impl RowsetWriter {
 
     pub async fn create_dir(&self) -> StorageResult<()> {
         if !self.io_backend.is_in_memory() {
+            #[cfg(feature = "verif")]
+            {
+                tokio::fs::create_dir(&self.directory).await?;
+                crate::verif::crash_point("rowset.mkdir", &self.directory, None);
+                Ok(())
+            }
+            #[cfg(not(feature = "verif"))]
             tokio::fs::create_dir(&self.directory)
                 .await
                 .map_err(|err| err.into())
@@ -72,12 +79,16 @@ impl RowsetWriter {
                     .open(path.as_ref())
                     .await?;
 
+                #[cfg(feature = "verif")]
+                crate::verif::crash_point("column.write", path.as_ref(), Some(&data));
                 let mut writer = BufWriter::new(file);
                 writer.write_all(&data).await?;
                 writer.flush().await?;
 
                 let file = writer.into_inner();
                 file.sync_data().await?;
+                #[cfg(feature = "verif")]
+                crate::verif::crash_point("column.synced", path.as_ref(), None);
             }
         }
 
@@ -87,6 +98,8 @@ impl RowsetWriter {
     async fn sync_dir(io_backend: &IOBackend, path: &impl AsRef<Path>) -> StorageResult<()> {
         if !io_backend.is_in_memory() {
             File::open(path.as_ref()).await?.sync_data().await?;
+            #[cfg(feature = "verif")]
+            crate::verif::crash_point("rowset.dir_synced", path.as_ref(), None);
         }
         Ok(())
     }
